@@ -71,14 +71,20 @@ fn gen_anns(src: &mut Src) -> Vec<GAnn> {
 
 fn gen_type(src: &mut Src) -> String {
     let mut fuel = 1 + src.below(4);
-    gen_sig(src, &SigOpts { maybe: false, fd: true, variant: true, max_depth: 3 }, 0, &mut fuel).to_string()
+    let t = gen_sig(src, &SigOpts { maybe: false, fd: true, variant: true, max_depth: 3 }, 0, &mut fuel).to_string();
+    // now and then a structure with exactly one field (its parentheses are part of the type)
+    if src.chance(30) {
+        format!("({t})")
+    } else {
+        t
+    }
 }
 
 fn gen_args(src: &mut Src, signal: bool) -> Vec<GArg> {
     let n = src.below(4);
     (0..n)
         .map(|_| GArg {
-            name: if src.below(3) == 0 { None } else if src.below(5) == 0 { Some(gen_text(src)).filter(|s| !s.is_empty()) } else { Some(gen_member_name(src)) },
+            name: if src.below(3) == 0 { None } else if src.below(5) == 0 { Some(if src.chance(60) { String::new() } else { gen_text(src) }) } else { Some(gen_member_name(src)) },
             ty: gen_type(src),
             dir: if src.below(3) == 0 { None } else if signal { Some(false) } else { Some(src.bool()) },
             anns: if src.below(4) == 0 { gen_anns(src) } else { vec![] },
@@ -98,7 +104,7 @@ fn gen_iface(src: &mut Src) -> GIface {
 
 pub fn gen_node(src: &mut Src, depth: usize) -> GNode {
     GNode {
-        name: if depth == 0 { if src.bool() { Some(gen_object_path(src)) } else { None } } else { Some(gen_path_element(src)) },
+        name: if depth == 0 { if src.chance(24) { Some(String::new()) } else if src.bool() { Some(gen_object_path(src)) } else { None } } else { Some(gen_path_element(src)) },
         ifaces: (0..src.below(3)).map(|_| gen_iface(src)).collect(),
         nodes: if depth < 2 { (0..src.below(3)).map(|_| gen_node(src, depth + 1)).collect() } else { vec![] },
     }
